@@ -66,6 +66,26 @@ func families() []Scenario {
 	add("precancelled", pre(0, "prompt"), sub(1, "prompt"), bgo(1, 0, 6), quiesce, drain, closeS(1), quiesce)
 	add("precancelled-stalled", pre(0, "stalled", "stalled"), sub(2, "prompt"), bgo(1, 0, 14), quiesce, drain, closeS(1), quiesce)
 	add("precancelled-only", pre(0, "slow"), bgo(1, 0, 13), quiesce, closeS(1), quiesce)
+	// A later Broadcast must not overtake the value the forwarder already holds: the forwarder is held
+	// (hook) with v1 in hand, ONE blocking receive waits on the subscriber channel, Broadcast(v2)
+	// runs to completion, the forwarder is released.  The subscriber must get v1 then v2.
+	park := func(h int) Step { return Step{Op: "park", H: h} }
+	unpark := func(h int) Step { return Step{Op: "unpark", H: h} }
+	rblock := func(h int) Step { return Step{Op: "rblock", H: h, N: 300} }
+	rjoin := Step{Op: "rjoin", N: 400}
+	for i := 0; i < 2; i++ {
+		add("overtake-forwarder-holding", sub(0, "stalled"), park(0), bgo(1, 0, 1), quiesce, settle(2),
+			rblock(0), bgo(2, 0, 1), quiesce, unpark(0), rjoin, rblock(0), rjoin, quiesce, drain, closeS(1), quiesce)
+		// two subscribers: the second one reads by polling (a direct hand-over can never reach it)
+		add("overtake-two-subscribers", sub(0, "stalled"), sub(1, "prompt"), park(0), bgo(1, 0, 1), quiesce, settle(2),
+			rblock(0), bgo(2, 0, 1), quiesce, unpark(0), rjoin, rblock(0), rjoin, quiesce, drain, closeS(1), quiesce)
+		// control: something is queued behind the held value, so nothing may be handed over directly
+		add("overtake-control-buffer-nonempty", sub(0, "stalled"), park(0), bgo(1, 0, 2), quiesce, settle(2),
+			rblock(0), bgo(2, 0, 1), quiesce, unpark(0), rjoin, rblock(0), rjoin, rblock(0), rjoin, quiesce, drain, closeS(1), quiesce)
+		// the receiver arrives only after the Broadcast (nobody to hand over to)
+		add("overtake-control-late-receiver", sub(0, "stalled"), park(0), bgo(1, 0, 1), quiesce, settle(2),
+			bgo(2, 0, 1), quiesce, rblock(0), unpark(0), rjoin, rblock(0), rjoin, quiesce, drain, closeS(1), quiesce)
+	}
 	add("after-close", sub(0, "prompt"), bgo(1, 0, 2), quiesce, drain, closeS(1), quiesce, bgo(2, 0, 2), sub(1, "prompt"), quiesce, closeS(1), quiesce)
 	add("no-subscribers", bgo(1, 0, 3), quiesce, closeS(2), quiesce)
 	add("close-during-traffic", sub(0, "prompt"), sub(1, "slow"), sub(2, "stalled"), bgo(1, 0, 8), bgo(2, 0, 8), settle(2), closeS(1), quiesce)
